@@ -118,6 +118,7 @@ reg("C03", exc_ops={"AddLinks", "IndexBatchCrawl"}, nontrivial=nt_links, hook="l
     weights={"AddLinks": 24, "IndexBatchCrawl": 30, "AddPage": 10, "Clear": 3},
     profile={"nlrus": 9, "raw": 0.1, "long": 0.2}, n=(160, 2000), title="Link multigraph")
 reg("C04", exc_ops=WE_OPS, nontrivial=nt_we, hook="resolve", mc=[("core", 4, 5), ("we", 4, 5)], gen_mc="we",
+    extra_sources=(tlcgen.tlc_traces, tlcgen.repo_test_traces, scale_traces),
     weights={"CreateWe": 14, "DeleteWe": 8, "AddPrefix": 10, "RemovePrefix": 8, "MovePrefix": 8,
              "AddPage": 14, "AddRule": 8, "RemoveRule": 6},
     profile={"raw": 0.0, "long": 0.15, "bigids": 0.35}, title="Longest-prefix resolution")
@@ -185,7 +186,8 @@ def token_source(pid, cfg, tier, seed, work, first_id, hook=None):
         bad = v["verdicts"].get(r["id"], [])
         if bad:
             out.append({"id": first_id + len(out), "backend": "none", "def": {"k": "domain"}, "rules": [], "steps": [],
-                        "src": "token-row", "ops": [], "row": r, "rowfail": [c for _, c in bad]})
+                        "src": "token-row", "ops": [], "row": r,
+                        "rowfail": [c.replace("C09.", pid + ".") for _, c in bad]})
     return out, {"token_rows": len(rows), "token_rows_failing": len(out)}
 
 
@@ -198,6 +200,7 @@ reg("C09", exc_ops=set(), nontrivial=nt_pages, hook="pagination", obs_fail=False
              "nestsib": 0.6, "sortedsiblings": 0.04}, steps=(24, 32),
     title="Page pagination")
 reg("C10", exc_ops=set(), nontrivial=nt_links, hook="paglinks", obs_fail=False,
+    extra_sources=(tlcgen.tlc_traces, tlcgen.repo_test_traces, token_source),
     weights={"PagLinks": 40, "AddLinks": 30, "IndexBatchCrawl": 12, "AddPage": 12, "CreateWe": 12, "AddPrefix": 8,
              "Clear": 3, "DeleteWe": 1, "RemovePrefix": 1, "MovePrefix": 2},
     profile={"raw": 0.0, "long": 0.2, "nlrus": 16, "extend": 0.2, "continue": 0.8, "concentrate": 1,
@@ -557,6 +560,11 @@ def c17_lrus(rng, n):
             continue
         rs = [rng.choice(rest) for _ in range(rng.choice([0, 0, 1, 2]))]
         out.append(s + pt + b"".join(hl) + b"".join(rs))
+    # host chains far longer than any real name (the grammar says "zero or more contiguous host stems")
+    for nh in (126, 127, 128, 129, 130, 140):
+        chain = [b"h:l%d|" % k for k in range(nh)]
+        out.append(b"s:http|" + b"".join(chain) + b"p:a|")
+        out.append(b"s:https|t:80|" + b"".join(chain) + b"h:www|")
     seen, uniq = set(), []
     for l in out:
         if l not in seen:
@@ -922,9 +930,9 @@ def replay(pid, path, work):
         v = runner.validate_rows(rows, os.path.join(work, "tokenrows"), module="tokenrows")
         bad = [c for _, c in v["verdicts"][rows[0]["id"]]]
         for c in bad:
-            print("VIOLATION property=C09 replay=%s clause=%s row=%s" % (path, c, want))
+            print("VIOLATION property=%s replay=%s clause=%s row=%s" % (pid, path, c.replace("C09.", pid + "."), want))
         if not bad:
-            print("replay: no violation of C09 on the current tree for token row %s" % (want,))
+            print("replay: no violation of %s on the current tree for token row %s" % (pid, want))
         return 1 if bad else 0
     cfg = P[body["property"]]
     hook = getattr(hooks, "hook_" + cfg["hook"]) if cfg["hook"] else None
